@@ -133,6 +133,26 @@ impl Real {
                 }
             }
         }
+        // C04 on the real objects only: the count reported through a handle equals the number of
+        // handles whose pointer resolves into the same block
+        for h in self.hs.iter() {
+            let reported = match h {
+                H::A(x) => Some(Arc::count(x)),
+                H::O(x) => Some(OffsetArc::strong_count(x)),
+                H::U1(x) => Some(ArcUnion::strong_count(x)),
+                H::U2(x) => Some(ArcUnion::strong_count(x)),
+                H::E(x) => Some(Arc::count(x)),
+                H::D(x) => Some(Arc::count(x)),
+                _ => None,
+            };
+            if let (Some(c), Some((addr, _, _, true))) = (reported, vrt::arena::block_of(data_ptr(h))) {
+                if let Some(k) = self.blocks.iter().position(|b| b.0 == addr) {
+                    if c != owners[k] {
+                        cx.fail(COUNT, "count-vs-handles", format!("a {:?} handle reports a count of {}, {} owning handle(s) refer to that allocation", kind_of(h), c, owners[k]));
+                    }
+                }
+            }
+        }
         for (k, (block, id)) in self.blocks.iter().enumerate() {
             let nd = drops.iter().filter(|d| **d == (1u8, *id)).count();
             let live = vrt::arena::block_of(*block).map(|b| b.3).unwrap_or(false);
@@ -968,6 +988,18 @@ impl Universe for US {
         }
         for b in vrt::arena::check_redzones() {
             cx.fail(LAYOUT, "redzone", format!("write outside block {:#x}", b));
+        }
+    }
+
+    fn abandon(mut r: Real, cx: &mut Ctx) {
+        while let Some(h) = r.hs.pop() {
+            cap(|| release_real(h));
+        }
+        r.invariant(cx);
+        for e in vrt::arena::errors_since(0) {
+            if e.kind == vrt::arena::ErrKind::DoubleFree {
+                cx.fail(LIFETIME, "double-free", format!("{:?}", e));
+            }
         }
     }
 
